@@ -131,7 +131,8 @@ def run(rep, tier):
                 ok1, ok2 = e1.is_zero(), e2.is_zero()
                 det1, det2 = "residual " + e1.residual()[:160], "residual " + e2.residual()[:160]
             except AlgError as e:
-                rep.undecided("%s: derivative at i=%s not representable (%s)" % (label, atl, e))
+                # never a silent pass: filed as not decided
+                rep.ob("R2", "%s: f'(%s) == %s" % (label, atl, gname), False, site, "not representable: %s" % e, key="%s/f'(%s)" % (label, atl))
                 continue
             rep.ob("R2", "%s: f'(%s) == %s" % (label, atl, gname), ok1, site, det1, key="%s/f'(%s)" % (label, atl))
             rep.ob("R2", "%s: f''(%s) == 0" % (label, atl), ok2, site, det2, key="%s/f''(%s)" % (label, atl))
@@ -167,7 +168,7 @@ def run(rep, tier):
                     detail = "no scaling of the root parameter leaves the constraint invariant"
             rep.ob("R6", "%s: f[2n, grad/2](2i) == f[n, grad](i)" % label, ok, site, detail, key=label + "/nesting")
         except AlgError as e:
-            rep.undecided("%s: nesting identity not representable (%s)" % (label, e))
+            rep.ob("R6", "%s: f[2n, grad/2](2i) == f[n, grad](i)" % label, False, site, "not representable: %s" % e, key=label + "/nesting")
     rep.floor("R1.arms", n_arms, 7)
     r3(prog, rep, gf)
     r4(prog, rep)
